@@ -255,8 +255,10 @@ theorem closeStep_spec (s : CloseStep) : Triple Inv (closeStep s) (fun _ => Inv)
     unfold closeStep
     refine Triple.bindGet (fun a => Triple.pre ?_ (fun w h => h.2))
     exact Triple.seq (tick_spec Inv.insens _) (Triple.ite (fun _ => Triple.throw _) (fun _ => Triple.unit))
+  | bindFile => exact Triple.unit
   | close =>
     unfold closeStep
+    refine Triple.bindGet (fun a => Triple.pre ?_ (fun w h => h.2))
     exact Triple.seq (modW_spec _ (fun w hw => hw.frame rfl rfl rfl rfl rfl))
       (Triple.seq (tick_spec Inv.insens _) (modW_spec _ (fun w hw => hw.frame rfl rfl rfl rfl rfl)))
   | resetFile => exact modW_spec _ (fun w hw => hw.frame rfl rfl rfl rfl rfl)
